@@ -17,6 +17,8 @@ EX = "chalk_engine::ExClause"
 
 
 def run(ck, facts, tier):
+    from props.c14 import occurs_before_bind
+    occurs_before_bind(ck, facts, "C28.UNIVERSE-CHECKED-BINDS")
     R = "C28.ARITY+KIND"
     ck.rule(R, "K1/K4: fresh_subst maps every binder (no filtering) through to_generic_arg, which maps Ty->ty, Lifetime->lifetime, Const->const; "
                "from_canonical applies fresh_subst to all of the canonical binders; ExClause / Fulfill values are constructed only in the audited "
